@@ -223,10 +223,10 @@ class Req:
         b = self.buf[:self.n]
         return b + [0] * (self.n - len(b))
 
-    def model_line(self):
+    def model_line(self, lim=None):
         g = ' (group %s)' % self.group if self.view == 'group' else ''
         return 'checked (req %s (msg %s) (buf x%s) (n %d)%s (lim %d))' % (
-            self.case.sexp, self.msg['name'], wire.hexs(self.padded()), self.n, g, MODEL_STEP_LIMIT)
+            self.case.sexp, self.msg['name'], wire.hexs(self.padded()), self.n, g, lim or MODEL_STEP_LIMIT)
 
     def driver_line(self):
         if self.view == 'group':
@@ -377,7 +377,7 @@ def judge(r, mk, ik, variant, feats):
                 mism.append(dict(obs, why='UB trap but the model forms no pointer that could wrap the address space',
                                  model_maxptr=mk['maxptr']))
         elif mk['out']:
-            if res != 'TIMEOUT' and steps <= MODEL_STEP_LIMIT:
+            if res != 'TIMEOUT' and steps <= MODEL_STEP_LIMIT and res != 'UB':
                 mism.append(dict(obs, why='model hit its step limit but the implementation finished earlier'))
         elif res == 'TIMEOUT':
             mism.append(dict(obs, why='implementation abandoned (watchdog) but the model finished'))
@@ -488,6 +488,24 @@ def correspond(chk, run, variants, values_per_msg):
     with cf.ThreadPoolExecutor(core.NPROC) as ex:
         results = list(ex.map(run_one, per.items()))
     chk.log('implementation answered')
+    # requests on which the model ran out of its step budget although the implementation came to an end (for instance
+    # a pointer that wraps only after more than a million callbacks): what happened cannot be attributed without the
+    # model's answer, so those few are asked again with a 50 times larger budget
+    again = []
+    for ((exe, cxx, std, v), rs), rc, outs in results:
+        if rc == 0 and len(outs) == len(rs):
+            for r, io in zip(rs, outs):
+                if r.mk['out'] and W.kvs(io).get('res') not in ('TIMEOUT', None) and r not in again:
+                    again.append(r)
+    again = again[:24]
+    if again:
+        with cf.ThreadPoolExecutor(core.NPROC) as ex:
+            redo = list(ex.map(lambda r: run.model_lines([r.model_line(lim=50 * MODEL_STEP_LIMIT)])[0], again))
+        for r, mo in zip(again, redo):
+            mk2 = parse_model(mo)
+            if mk2 is not None:
+                r.mk = mk2
+    stats['model_requests_repeated_with_larger_budget'] = len(again)
     for ((exe, cxx, std, v), rs), rc, outs in results:
         if rc != 0 or len(outs) != len(rs):
             chk.report_unproved('driver-run', {'rc': rc, 'answers': len(outs), 'requests': len(rs), 'exe': exe,
